@@ -117,22 +117,22 @@ Section Bridge.
   Local Notation Stack' := (Stack leaf tr reg).
 
   (* ---- the regenerated functions, members = the model's own recursive functions ---- *)
-  Definition G_fit_forecasters := gen_fit_forecasters leaf lpar tr tpar reg rpar fit'.
-  Definition G_predict_forecasters := gen_predict_forecasters leaf lpar tr tpar reg rpar predict'.
-  Definition G_ens_fit := gen_ens_fit leaf lpar tr tpar reg rpar fit'.
-  Definition G_ens_update := gen_ens_update leaf lpar tr tpar reg rpar update'.
-  Definition G_ens_predict := gen_ens_predict leaf lpar tr tpar reg rpar predict'.
-  Definition G_pipe_fit := gen_pipe_fit leaf lpar tr tpar tfit tapp reg rpar fit'.
-  Definition G_pipe_predict := gen_pipe_predict leaf lpar tr tpar tinv tskip reg rpar predict'.
-  Definition G_pipe_update := gen_pipe_update leaf lpar tr tpar tupd tapp thasupd reg rpar update'.
-  Definition G_pipe_transform := gen_pipe_transform tr tpar tapp.
-  Definition G_pipe_inverse_transform := gen_pipe_inverse_transform tr tpar tinv.
-  Definition G_mux_fit := gen_mux_fit leaf lpar tr tpar reg rpar fit'.
-  Definition G_mux_update := gen_mux_update leaf lpar tr tpar reg rpar update'.
-  Definition G_mux_predict := gen_mux_predict leaf lpar tr tpar reg rpar predict'.
-  Definition G_stack_fit := gen_stack_fit leaf lpar tr tpar reg rpar rfit fit' predict'.
-  Definition G_stack_update := gen_stack_update leaf lpar tr tpar reg rpar update'.
-  Definition G_stack_predict := gen_stack_predict leaf lpar tr tpar reg rpar rpred predict'.
+  Definition G_fit_forecasters := gen_fit_forecasters leaf lpar tr tpar tfit tupd tapp tinv tskip thasupd reg rpar rfit rpred fit'.
+  Definition G_predict_forecasters := gen_predict_forecasters leaf lpar tr tpar tfit tupd tapp tinv tskip thasupd reg rpar rfit rpred predict'.
+  Definition G_ens_fit := gen_ens_fit leaf lpar tr tpar tfit tupd tapp tinv tskip thasupd reg rpar rfit rpred fit'.
+  Definition G_ens_update := gen_ens_update leaf lpar tr tpar tfit tupd tapp tinv tskip thasupd reg rpar rfit rpred update'.
+  Definition G_ens_predict := gen_ens_predict leaf lpar tr tpar tfit tupd tapp tinv tskip thasupd reg rpar rfit rpred predict'.
+  Definition G_pipe_fit := gen_pipe_fit leaf lpar tr tpar tfit tupd tapp tinv tskip thasupd reg rpar rfit rpred fit'.
+  Definition G_pipe_predict := gen_pipe_predict leaf lpar tr tpar tfit tupd tapp tinv tskip thasupd reg rpar rfit rpred predict'.
+  Definition G_pipe_update := gen_pipe_update leaf lpar tr tpar tfit tupd tapp tinv tskip thasupd reg rpar rfit rpred update'.
+  Definition G_pipe_transform := gen_pipe_transform leaf lpar tr tpar tfit tupd tapp tinv tskip thasupd reg rpar rfit rpred.
+  Definition G_pipe_inverse_transform := gen_pipe_inverse_transform leaf lpar tr tpar tfit tupd tapp tinv tskip thasupd reg rpar rfit rpred.
+  Definition G_mux_fit := gen_mux_fit leaf lpar tr tpar tfit tupd tapp tinv tskip thasupd reg rpar rfit rpred fit'.
+  Definition G_mux_update := gen_mux_update leaf lpar tr tpar tfit tupd tapp tinv tskip thasupd reg rpar rfit rpred update'.
+  Definition G_mux_predict := gen_mux_predict leaf lpar tr tpar tfit tupd tapp tinv tskip thasupd reg rpar rfit rpred predict'.
+  Definition G_stack_fit := gen_stack_fit leaf lpar tr tpar tfit tupd tapp tinv tskip thasupd reg rpar rfit rpred fit' predict'.
+  Definition G_stack_update := gen_stack_update leaf lpar tr tpar tfit tupd tapp tinv tskip thasupd reg rpar rfit rpred update'.
+  Definition G_stack_predict := gen_stack_predict leaf lpar tr tpar tfit tupd tapp tinv tskip thasupd reg rpar rfit rpred predict'.
 
   (* ================================================================ base/_meta.py *)
 
@@ -194,20 +194,20 @@ Section Bridge.
   (* ================================================================ TransformedTargetForecaster *)
 
   Theorem bridge_iter_transformers (A : Type) (l : list A) :
-    gen_iter_transformers A false l = l /\ gen_iter_transformers A true l = rev l.
+    gen_iter_transformers leaf lpar tr tpar tfit tupd tapp tinv tskip thasupd reg rpar rfit rpred A false l = l /\ gen_iter_transformers leaf lpar tr tpar tfit tupd tapp tinv tskip thasupd reg rpar rfit rpred A true l = rev l.
   Proof. split; reflexivity. Qed.
 
   Definition perm3 {A B C} (x : A * B * C) : C * B * A := let '(a, b, c) := x in (c, b, a).
 
   (* body of the fit loop: clone, fit_transform the RUNNING series, store the fitted clone back *)
   Lemma bridge_pipe_fit_body acc gt :
-    gen_pipe_fit_loop1 tr tpar tfit tapp (perm3 acc) gt = perm3 (fit_step' acc gt).
+    gen_pipe_fit_loop1 leaf lpar tr tpar tfit tupd tapp tinv tskip thasupd reg rpar rfit rpred (perm3 acc) gt = perm3 (fit_step' acc gt).
   Proof. destruct acc as [[fs yt] tc], gt as [g t]. reflexivity. Qed.
 
   Theorem bridge_pipe_fit ts f0 y fh : G_pipe_fit ts f0 y fh = fit' (Pipe' ts f0) y fh.
   Proof.
     unfold G_pipe_fit, gen_pipe_fit. cbv zeta. rewrite own_fit.
-    change (gen_iter_transformers (Z * tr) false ts) with ts.
+    change (gen_iter_transformers leaf lpar tr tpar tfit tupd tapp tinv tskip thasupd reg rpar rfit rpred (Z * tr) false ts) with ts.
     pose (a0 := (([] : list tstateT), y, ([] : trace))).
     change (([] : trace), y, ([] : list tstateT)) with (perm3 a0).
     rewrite (fold_left_conj perm3 fit_step' _ bridge_pipe_fit_body).
@@ -220,7 +220,7 @@ Section Bridge.
 
   (* body of the inverse loop of _predict: skip tagged transformers, else inverse_transform *)
   Lemma bridge_pipe_inv_fold : forall l pre t0 y,
-    fold_left (gen_pipe_predict_loop1 tr tpar tinv tskip) l (pre ++ t0, y) =
+    fold_left (gen_pipe_predict_loop1 leaf lpar tr tpar tfit tupd tapp tinv tskip thasupd reg rpar rfit rpred) l (pre ++ t0, y) =
     (let '(y', t') := fold_left inv_step' l (y, t0) in (pre ++ t', y')).
   Proof.
     induction l as [|[[g t] p] l IH]; intros pre t0 y; [reflexivity|].
@@ -234,7 +234,7 @@ Section Bridge.
   Proof.
     unfold G_pipe_predict, gen_pipe_predict. cbv zeta. cbn [predict].
     destruct (predict' f) as [yp tc].
-    change (gen_iter_transformers tstateT true ts) with (rev ts).
+    change (gen_iter_transformers leaf lpar tr tpar tfit tupd tapp tinv tskip thasupd reg rpar rfit rpred tstateT true ts) with (rev ts).
     change ([] ++ tc) with tc. rewrite <- (app_nil_r tc) at 1.
     rewrite bridge_pipe_inv_fold. unfold inv_chain.
     destruct (fold_left inv_step' (rev ts) (yp, [])) as [yq tc2]. reflexivity.
@@ -243,7 +243,7 @@ Section Bridge.
   (* body of the update loop: update the step (if it can be updated) with the RUNNING series, then
      transform the running series with the updated step *)
   Lemma bridge_pipe_update_body up acc s :
-    gen_pipe_update_loop1 tr tpar tupd tapp thasupd up (perm3 acc) s = perm3 (upd_step' up acc s).
+    gen_pipe_update_loop1 leaf lpar tr tpar tfit tupd tapp tinv tskip thasupd reg rpar rfit rpred up (perm3 acc) s = perm3 (upd_step' up acc s).
   Proof.
     destruct acc as [[fs yt] tc], s as [[g t] p].
     unfold gen_pipe_update_loop1, upd_step, perm3, T_hasattr_update, T_update, T_transform.
@@ -258,7 +258,7 @@ Section Bridge.
     match goal with |- (if ?c then _ else _) = _ => replace c with false by (cbn [length]; lia) end.
     assert (Hy : p0 :: y0 <> []) by discriminate. revert Hy. generalize (p0 :: y0). intros y Hy.
     rewrite (update_pipe_nonempty leaf lpar lfit tr tpar tupd tapp thasupd reg rpar b ts f y up Hy).
-    change (gen_iter_transformers tstateT false ts) with ts.
+    change (gen_iter_transformers leaf lpar tr tpar tfit tupd tapp tinv tskip thasupd reg rpar rfit rpred tstateT false ts) with ts.
     pose (a0 := (([] : list tstateT), y, ([] : trace))).
     change (([] : trace), y, ([] : list tstateT)) with (perm3 a0).
     rewrite (fold_left_conj perm3 (upd_step' up) _ (bridge_pipe_update_body up)).
@@ -274,7 +274,7 @@ Section Bridge.
 
   (* transform / inverse_transform of the pipeline used as a transformer *)
   Lemma bridge_pipe_transform_fold : forall ts tc z,
-    snd (fold_left (gen_pipe_transform_loop1 tr tpar tapp) ts (tc, z)) = fwd' ts z.
+    snd (fold_left (gen_pipe_transform_loop1 leaf lpar tr tpar tfit tupd tapp tinv tskip thasupd reg rpar rfit rpred) ts (tc, z)) = fwd' ts z.
   Proof.
     induction ts as [|[[g t] p] ts IH]; intros tc z; [reflexivity|].
     cbn [fold_left fwd]. unfold gen_pipe_transform_loop1 at 2, T_transform. cbv zeta. apply IH.
@@ -283,7 +283,7 @@ Section Bridge.
   Theorem bridge_pipe_transform ts z : fst (G_pipe_transform ts z) = fwd' ts z.
   Proof.
     unfold G_pipe_transform, gen_pipe_transform. cbv zeta.
-    change (gen_iter_transformers tstateT false ts) with ts.
+    change (gen_iter_transformers leaf lpar tr tpar tfit tupd tapp tinv tskip thasupd reg rpar rfit rpred tstateT false ts) with ts.
     match goal with |- fst (let '(_, _) := ?X in _) = _ => transitivity (snd X) end;
       [|apply bridge_pipe_transform_fold].
     destruct (fold_left _ _ _). reflexivity.
@@ -297,11 +297,11 @@ Section Bridge.
     end.
 
   Lemma bridge_pipe_inverse_fold : forall ts tc z,
-    snd (fold_left (gen_pipe_inverse_transform_loop1 tr tpar tinv) (rev ts) (tc, z)) = inv_all ts z.
+    snd (fold_left (gen_pipe_inverse_transform_loop1 leaf lpar tr tpar tfit tupd tapp tinv tskip thasupd reg rpar rfit rpred) (rev ts) (tc, z)) = inv_all ts z.
   Proof.
     induction ts as [|[[g t] p] ts IH]; intros tc z; [reflexivity|].
     cbn [rev inv_all]. rewrite fold_left_app. cbn [fold_left].
-    destruct (fold_left (gen_pipe_inverse_transform_loop1 tr tpar tinv) (rev ts) (tc, z))
+    destruct (fold_left (gen_pipe_inverse_transform_loop1 leaf lpar tr tpar tfit tupd tapp tinv tskip thasupd reg rpar rfit rpred) (rev ts) (tc, z))
       as [tc1 z1] eqn:E.
     unfold gen_pipe_inverse_transform_loop1, T_inverse_transform. cbv zeta. cbn [snd].
     f_equal. rewrite <- (IH tc z), E. reflexivity.
@@ -311,7 +311,7 @@ Section Bridge.
     fst (G_pipe_inverse_transform ts z) = inv_all ts z.
   Proof.
     unfold G_pipe_inverse_transform, gen_pipe_inverse_transform. cbv zeta.
-    change (gen_iter_transformers tstateT true ts) with (rev ts).
+    change (gen_iter_transformers leaf lpar tr tpar tfit tupd tapp tinv tskip thasupd reg rpar rfit rpred tstateT true ts) with (rev ts).
     match goal with |- fst (let '(_, _) := ?X in _) = _ => transitivity (snd X) end;
       [|apply bridge_pipe_inverse_fold].
     destruct (fold_left _ _ _). reflexivity.
@@ -332,7 +332,7 @@ Section Bridge.
     List.combine (map Z.of_nat (seq 0 (length ms))) ms.
 
   Lemma names_fold : forall (l : list (Z * fcT)) out,
-    fold_left (gen_mux_check_selected_loop1 leaf tr reg) l out = out ++ map fst l.
+    fold_left (gen_mux_check_selected_loop1 leaf lpar tr tpar tfit tupd tapp tinv tskip thasupd reg rpar rfit rpred) l out = out ++ map fst l.
   Proof.
     induction l as [|[n m] l IH]; intros out; cbn; [rewrite app_nil_r; reflexivity|].
     rewrite IH, <- app_assoc. reflexivity.
@@ -351,7 +351,7 @@ Section Bridge.
 
   (* _check_selected_forecaster: the selection must name a member *)
   Theorem bridge_mux_check sel ms :
-    gen_mux_check_selected leaf tr reg (Z.of_nat sel) (named ms) = (sel <? length ms)%nat.
+    gen_mux_check_selected leaf lpar tr tpar tfit tupd tapp tinv tskip thasupd reg rpar rfit rpred (Z.of_nat sel) (named ms) = (sel <? length ms)%nat.
   Proof.
     unfold gen_mux_check_selected. cbv zeta. rewrite names_fold. cbn [app]. unfold named.
     rewrite names_of_named, existsb_seq.
@@ -360,7 +360,7 @@ Section Bridge.
   Qed.
 
   Lemma select_fold : forall (ms : list fcT) k sel cur,
-    fold_left (gen_mux_set_forecaster_loop1 leaf tr reg (Z.of_nat sel))
+    fold_left (gen_mux_set_forecaster_loop1 leaf lpar tr tpar tfit tupd tapp tinv tskip thasupd reg rpar rfit rpred (Z.of_nat sel))
               (List.combine (map Z.of_nat (seq k (length ms))) ms) cur =
     match (if (k <=? sel)%nat then nth_error ms (sel - k) else None) with
     | Some m => Some m
@@ -383,7 +383,7 @@ Section Bridge.
 
   (* _set_forecaster: the member whose name is the selection *)
   Theorem bridge_mux_set_forecaster sel ms :
-    gen_mux_set_forecaster leaf tr reg (Z.of_nat sel) (named ms) =
+    gen_mux_set_forecaster leaf lpar tr tpar tfit tupd tapp tinv tskip thasupd reg rpar rfit rpred (Z.of_nat sel) (named ms) =
     if (sel <? length ms)%nat then Some (nth_error ms sel) else None.
   Proof.
     unfold gen_mux_set_forecaster. cbv zeta. rewrite bridge_mux_check.
